@@ -550,8 +550,8 @@ def configs(tier, seed):
 
 
 BOUNDS = {"quick": "value: 8-bit integers (full range + 4 beyond each end) / binary64 grid k/4, "
-                   "|k| <= 2^7; ~120 methods", "thorough": "12-bit (16-bit for LINEAR int->int) "
-          "integers, grid |k| <= 2^11; ~170 methods"}
+                   "|k| <= 2^7; ~260 configurations over ~130 methods", "thorough": "12-bit (16-bit for LINEAR int->int) "
+          "integers, grid |k| <= 2^11; ~330 configurations"}
 STUBS = ["int/float shims (no bitstruct involved)"]
 ASSUMPTIONS = [
     "Python float arithmetic == IEEE-754 binary64 with round-to-nearest-even (SMT FloatingPoint)",
